@@ -299,8 +299,8 @@ PROPS = {
         "trusted_base": COMMON_TB + ["Expand/Expand.v: hand model of expander.go / schema_loader.go / resolver.go on JSON trees (base-path threading, parent stack, memo of circular refs, resolver roots, deref chains, rebasing, SkipSchemas/ContinueOnError/AbsoluteCircularRef, cache and loader log); abstractions: sub-schemas visited in JSON member order, `#/` refs into the live root read the original root (outputs on cyclic graphs compared through unfoldings)",
                                      "correspondence scope: every generated graph except those with schema ids and prefix-sibling documents (the areas of the open findings F9, F10, F10b), which are judged by the oracle only; multi-hop parameter/response/path-item chains and imported circular schemas are compared since the repairs of F7 and F8",
                                      "Codec/Codec.v (typed decoding of every resolved target) and Base/Url.v (normalizeURI, rebase)"],
-        "level_text": 'Coq theorems (Props/C09.v): with SkipSchemas a schema holding a $ref is finished at once — nothing resolved, followed or loaded, state untouched, only the text rebased to the root-relative rendering of its canonical target; the definitions section comes out exactly as it went in; no fuel is needed for schema refs; MEANING: the bisimulation theorem of C02 holds in skip mode — every schema that comes out of a SkipSchemas walk is bisimilar, read at the root location, to what went in read in its own document (graph hypotheses decided by the verified checker, which checks the rendering used by skip mode; discharged on a schema of the second document of the example graph).',
-        "level_note": 'Partial: that the rebased text designates the same target is decided per graph by the checker (G_render), not for all URLs (it fails for prefix-sibling documents, F9); parameters/responses/path items in skip mode and the skip-then-full equality are checked by the oracle.',
+        "level_text": 'Coq theorems (Props/C09.v): with SkipSchemas a schema holding a $ref is finished at once — nothing resolved, followed or loaded, state untouched, only the text rebased to the root-relative rendering of its canonical target; the definitions section comes out exactly as it went in; no fuel is needed for schema refs; MEANING: the bisimulation theorem of C02 holds in skip mode — every schema that comes out of a SkipSchemas walk is bisimilar, read at the root location, to what went in read in its own document (graph hypotheses decided by the verified checker, which checks the rendering used by skip mode; discharged on a schema of the second document of the example graph). THE WHOLE OF ExpandSpec IN SKIP MODE (Expand/ExpandSpecSim.v: C09_expand_spec_skip_preserves_meaning): on a checked graph, from every consistent state, the document returned has the definitions section of the input, every shared parameter, shared response and path item replaced by the end of its chain (no `$ref` left on it), the parameters and responses of operations likewise, every schema below them bisimilar to that of the input when read at the root location; the schema walk leaves the state exactly as it was (walk_skip_state); discharged on the two-document specification.',
+        "level_note": 'Partial: that the rebased text designates the same target is decided per graph by the checker (G_render), not for all URLs (it fails for prefix-sibling documents, F9); the skip-then-full equality is checked by the oracle.',
         "technique": "Coq proof about a hand-written executable model of the expander + differential run (exact on acyclic graphs, unfoldings on cyclic ones) + property oracle on the implementation",
         "assumptions": ["loader is a function of the URL during one call", "documents are in normal form (reference objects carry only $ref)"],
     },
